@@ -51,6 +51,7 @@ def pre(ctx):
         ctx.discharged += 4
         for t in ("entries_ok", "stop_ok", "evict_ok", "cache_deadlock_free_now"):
             ctx.theorems["regenerated:" + t] = "Closed under the global context"
+        _other_packages(ctx, binpath, gen)
         return
     # which obligation / entry fails?
     with open(os.path.join(gen, "SkeletonRun.v")) as f:
@@ -78,6 +79,34 @@ def pre(ctx):
     unknowns = {e["name"]: e["unknowns"] for e in sk["entries"] if e.get("unknowns")}
     ctx.c14_broken = {"stage": "obligation", "failing": bad, "unclassified_constructs": unknowns, "output": out[-2000:],
                       "skeletons": {e["name"]: e["skel"][:3000] for e in sk["entries"] if e["name"] in sum(bad.values(), [])}}
+
+
+OTHER_PACKAGES = [("SkelEvent", "utils/event"), ("SkelSyncMap", "utils/syncmap")]
+
+
+def _other_packages(ctx, binpath, gen):
+    """The packages whose locks requests and listeners take besides the cache's: every function/method/returned closure
+    is an entry; their mutex (field mu) plays the role of the map lock, nothing is acquired while it is held."""
+    for name, pkg in OTHER_PACKAGES:
+        ctx.obligations += 1
+        sub = os.path.join(gen, name)
+        os.makedirs(sub, exist_ok=True)
+        rc, out = vlib.sh([binpath, "-dir", os.path.join(vlib.REPO, pkg), "-out", sub, "-name", name, "-allfuncs"], timeout=120)
+        if rc != 0:
+            ctx.c14_broken = {"stage": "translator run", "package": pkg, "output": out[-2000:]}
+            return
+        rc, out = _coqc(name + ".v", sub)
+        if rc == 0 and "Closed under the global context" in out:
+            ctx.discharged += 1
+            ctx.theorems["regenerated:%s.entries_ok" % name] = "Closed under the global context"
+            with open(os.path.join(sub, "skeleton.json")) as f:
+                ctx.notes.append("skeleton of package %s: %d entries, all pass the lock discipline" % (pkg, len(json.load(f)["entries"])))
+        else:
+            with open(os.path.join(sub, "skeleton.json")) as f:
+                sk = json.load(f)
+            ctx.c14_broken = {"stage": "obligation", "package": pkg, "failing": {"entry_ok": [e["name"] for e in sk["entries"]]},
+                              "unclassified_constructs": {e["name"]: e["unknowns"] for e in sk["entries"] if e.get("unknowns")}, "output": out[-1500:]}
+            return
 
 
 def post(ctx):
